@@ -22,6 +22,15 @@ together with every relabelling of it".
            realise the graph) permuted - node = state vector
   visgraph VisibilityGraph: generic network measures after assigning the
            permuted adjacency
+  scale    the fixed larger inputs of refmodel/measure_table.scale_graph
+           (components of 9/12/15/23 nodes with interleaved labels and
+           isolated nodes, connected bipartite graphs on 21..34 nodes, hub
+           rings on 150/209(/300) nodes, dense directed on 24) with unequal
+           weights x a dozen fixed permutations (reversal, shifts, block
+           moves bringing high-numbered nodes to the front, scrambles), for
+           Network, the group methods (groups of 7/8 and N/2 nodes), the
+           spatial classes (also with coordinates > 1e5) and a
+           RecurrenceNetwork of 150(/300) state vectors
 
 Oracle (perm[k] = old number of new node k):
   global f(G') = f(G);  node f(G')[k] = f(G)[perm[k]];  pair on both axes;
@@ -43,6 +52,7 @@ from ..refmodel import measure_table as mt
 LEVEL = "exploration"
 TOL = dict(rtol=1e-9, atol=1e-12)
 TOL_EV = dict(rtol=1e-6, atol=1e-8)
+TOL_EV_ITER = dict(rtol=2e-5, atol=2e-5)     # N >= 21: see measure_table
 TOL_F32 = dict(F32)
 JITTER = 1e-11
 
@@ -305,18 +315,20 @@ def _sigval(o):
         return repr(o[1])[:60]
 
 
-def _tol_of(m):
+def _tol_of(m, n=0, W=1.0):
     if m is None:
         return TOL
     if m.has("simple_ev"):
-        return TOL_EV
+        return TOL_EV if n <= 20 else TOL_EV_ITER
+    if m.has("cancel"):
+        return dict(rtol=1e-9, atol=1e-12 * max(1.0, float(W) ** 3))
     if m.has("f32"):
         return TOL_F32
     return TOL
 
 
 def _plan(cls, owners, n, directed, conn, pairs, excluded, stats,
-          need_groups=None):
+          need_groups=None, skip=()):
     """[(name, entry|None, pattern, tag, (L1, L2)|None)] for every public
     method of `cls` owned by one of `owners` (None = any)."""
     plan = []
@@ -326,6 +338,9 @@ def _plan(cls, owners, n, directed, conn, pairs, excluded, stats,
         if name in mt.DENY:
             r = "not a measure: " + mt.DENY[name]
             excluded[r] = excluded.get(r, 0) + 1
+            continue
+        if name in skip:
+            excluded["too slow at this size: " + name] = 1
             continue
         m = mt.lookup(cls, name)
         if m is None:
@@ -372,7 +387,7 @@ def _jit(x, s):
 
 def _explore_object(clsname, build, variants, n, directed, A, perms, owners,
                     pairs, orders=("asis",), need_groups=None,
-                    jitter_build=None, alternate=False):
+                    jitter_build=None, alternate=False, skip=()):
     """The common engine.  build(perm, variant) -> object in the numbering
     new k = old perm[k] (perm None: the original)."""
     classes = _all_classes()
@@ -386,8 +401,13 @@ def _explore_object(clsname, build, variants, n, directed, A, perms, owners,
     else:
         dtag = "undirected" + ("" if conn else "+disconnected")
     base = build(None, variants[0])
+    try:
+        Wtot = max(float(n), float(np.sum(np.asarray(base.node_weights,
+                                                     dtype=float))))
+    except Exception:   # noqa
+        Wtot = float(n)
     plan = _plan(cls, owners, n, directed, conn, pairs, excluded, stats,
-                 need_groups)
+                 need_groups, skip)
     base_val = []
     for (name, m, pat, tag, grp) in plan:
         L1, L2 = grp if grp else ((), ())
@@ -402,7 +422,7 @@ def _explore_object(clsname, build, variants, n, directed, A, perms, owners,
             return False
         name, m, pat, tag, grp = plan[k]
         L1, L2 = grp if grp else ((), ())
-        tol = _tol_of(m)
+        tol = _tol_of(m, n, Wtot)
         for s_ in (1, -1):
             if s_ not in jit:
                 jit[s_] = jitter_build(s_)
@@ -426,7 +446,8 @@ def _explore_object(clsname, build, variants, n, directed, A, perms, owners,
         if ob[0] != "ok" or os_[0] != "ok":
             return False
         try:
-            return _relate("node", ob[1], os_[1], perm, _tol_of(m)) is None
+            return _relate("node", ob[1], os_[1], perm,
+                           _tol_of(m, n, Wtot)) is None
         except Exception:   # noqa
             return False
 
@@ -483,7 +504,7 @@ def _explore_object(clsname, build, variants, n, directed, A, perms, owners,
                             s[1] if s[0] == "exc" else _sigval(s),
                             b[1] if b[0] == "exc" else _sigval(b)))
                         continue
-                    tol = _tol_of(m)
+                    tol = _tol_of(m, n, Wtot)
                     if m is None:
                         if _multiset_equal(b[1], s[1], tol):
                             stats["relations_held"] = \
@@ -743,8 +764,182 @@ def fam_visgraph(case):
                            _group_pairs(n, 3))
 
 
+# ---------------------------------------------------------------------------
+# family: scale  (fixed larger structured inputs, same relations)
+
+SCALE_SKIP_BIG = ("local_vulnerability", "arenas_betweenness",
+                  "nsi_arenas_betweenness",
+                  "local_distance_weighted_vulnerability")
+
+
+def _scale_perms(n):
+    """A dozen fixed permutations of range(n): from domains.perms_sample
+    (reversal, cyclic shift, multiplicative, transpositions with the last
+    node) plus block moves that bring high-numbered nodes to the front and
+    three scrambles."""
+    ps = [tuple(p) for p in perms_sample(n, full=False)]
+    ident = tuple(range(n))
+    out = []
+
+    def add(p):
+        p = tuple(p)
+        if sorted(p) == list(range(n)) and p != ident and p not in out:
+            out.append(p)
+    add(ps[1])                                   # reversal
+    for p in ps[-2:]:                            # shift, multiplicative
+        add(p)
+    tr = [p for p in ps[2:-2]]
+    for k in (0, len(tr) // 2, len(tr) - 1):     # (0 n-1), (n/2 n-1), ...
+        if tr:
+            add(tr[k])
+    h = n // 2
+    add(list(range(h, n)) + list(range(h)))      # second half to the front
+    add(list(range(0, n, 2)) + list(range(1, n, 2)))
+    add(list(range(n - 1, -1, -2)) + list(range(n - 2, -1, -2)))
+    for a, c in ((37, 11), (53, 5), (101, 3)):
+        k, x, seen, p = 0, c % n, set(), []
+        while len(p) < n:                        # LCG walk, skip repeats
+            if x not in seen:
+                seen.add(x)
+                p.append(x)
+            x = (x * a + c + k) % n
+            k += 1
+        add(p)
+    return out[:12]
+
+
+def _scale_pairs(n):
+    ev, od = list(range(0, n, 2)), list(range(1, n, 2))
+    return [(ev[:7], od[:8]), (od[:8], ev[:7]),
+            (list(range(n // 2)), list(range(n // 2, n))),
+            (list(range(0, n, 3)), list(range(1, n, 3))),
+            ([n - 1], list(range(0, min(n - 1, 9))))]
+
+
+def _scale_coords(n, big=False):
+    xs = [1.5 * ((i * 37) % 101) + 0.25 * i for i in range(n)]
+    ys = [2.0 * ((i * 53) % 89) + 0.125 * i for i in range(n)]
+    if big:          # magnitudes > 1e5 (float32 spacing 0.125 at 1.9e6)
+        xs = [1.9e6 + 6.0 * ((i * 37) % (2 * n)) for i in range(n)]
+        ys = [1.2e5 + 3.0 * ((i * 53) % (2 * n)) for i in range(n)]
+    lat = [-80.0 + 160.0 * ((i * 29) % n) / n + 0.01 * (i % 7)
+           for i in range(n)]
+    lon = [-175.0 + 350.0 * ((i * 53) % n) / n for i in range(n)]
+    return xs, ys, lat, lon
+
+
+def fam_scale(case):
+    kind, name, chunk, nchunks = case[:4]
+    classes = _all_classes()
+    if kind == "recnet":
+        n = int(name)
+        cols = 15 if n == 150 else 20
+        order = [(i * 37) % n for i in range(n)]
+        pts = [(k % cols, k // cols) for k in order]
+        series = 0.5 * np.array(pts, dtype=float)
+        A = [[int(i != j and abs(pts[i][0] - pts[j][0]) <= 1 and
+                  abs(pts[i][1] - pts[j][1]) <= 1) for j in range(n)]
+             for i in range(n)]
+        directed = False
+    else:
+        n, edges, directed = mt.scale_graph(name)
+        A = mt.scale_adjacency(n, edges, directed)
+    w = mt.scale_weights(n)
+    W = link_attr(np.array(A), 1).tolist()
+    perms = _scale_perms(n)[chunk::nchunks]
+    skip = SCALE_SKIP_BIG if n >= 100 else ()
+    pairs = _scale_pairs(n)
+    dname = "directed" if directed else "undirected"
+    if kind == "net":
+        pre = []
+
+        def check(net, A2, w2, perm):
+            gA = np.asarray(net.adjacency)
+            if not np.array_equal(gA, np.array(A2)) or \
+                    bool(net.directed) != bool(directed):
+                pre.append(V("Network.permuted_copy:adjacency:" + dname,
+                             "perm %s" % (perm,), gA, A2))
+            gw = np.asarray(net.node_weights, dtype=float)
+            if gw.shape != (n,) or not np.array_equal(gw, np.array(w2)):
+                pre.append(V("Network.permuted_copy:node-weights",
+                             "perm %s" % (perm,), gw, w2))
+        build, jb = _net_builder("Network", A, directed, w, W, check)
+        r = _explore_object("Network", build, ("permuted_copy", "rebuild"),
+                            n, directed, A, perms, None, pairs[:3],
+                            jitter_build=jb, alternate=True, skip=skip)
+        r["viol"] = pre + r["viol"]
+        return r
+    if kind == "groups":
+        build, jb = _net_builder("InteractingNetworks", A, directed, w, W)
+        return _explore_object("InteractingNetworks", build, ("rebuild",), n,
+                               directed, A, perms, ("InteractingNetworks",),
+                               pairs, orders=("asis", "sorted"),
+                               jitter_build=jb, skip=skip)
+    if kind == "recnet":
+        from ..refmodel import craft
+        cls = classes["RecurrenceNetwork"]
+        pre = []
+
+        def mk(perm, w_):
+            p = perm if perm is not None else tuple(range(n))
+            net = cls(series[list(p)], metric="supremum",
+                      threshold=craft.THRESHOLD, silence_level=3,
+                      node_weights=np.array(pv(w_, p), dtype=float))
+            if perm is None and not np.array_equal(
+                    np.asarray(net.adjacency), np.array(A)):
+                pre.append(V("RecurrenceNetwork.adjacency:crafted",
+                             "lattice series does not realise the king "
+                             "graph", net.adjacency, A))
+            net.set_link_attribute(mt.LA, np.array(pA(W, p), dtype=float))
+            return net
+        r = _explore_object(
+            "RecurrenceNetwork", lambda perm, variant: mk(perm, w),
+            ("rebuild",), n, False, A, perms,
+            ("RecurrenceNetwork", "RecurrencePlot", "Network"), pairs[:2],
+            jitter_build=lambda s_: mk(None, _jit(w, s_)), skip=skip)
+        r["viol"] = pre + r["viol"]
+        return r
+    # spatial classes: kind in SpatialNetwork / SpatialNetwork-big /
+    # GeoNetwork / ResNetwork
+    clsname = kind.split("-")[0]
+    cls = classes[clsname]
+    xs, ys, lat, lon = _scale_coords(n, big=kind.endswith("-big"))
+    R = link_attr(np.array(A), 2).tolist()
+    t = 1.9e6 + 6.0 * np.arange(3.0) if kind.endswith("-big") \
+        else np.arange(3.0)
+
+    def build(perm, variant):
+        p = perm if perm is not None else tuple(range(n))
+        A2, W2 = pA(A, p), pA(W, p)
+        if clsname == "SpatialNetwork":
+            g = classes["Grid"](time_seq=t, space_seq=np.array(
+                [pv(xs, p), pv(ys, p)]), silence_level=3)
+            net = cls(grid=g, adjacency=np.array(A2), directed=bool(directed),
+                      silence_level=3)
+        else:
+            g = classes["GeoGrid"](time_seq=t, lat_seq=np.array(pv(lat, p)),
+                                   lon_seq=np.array(pv(lon, p)),
+                                   silence_level=3)
+            if clsname == "GeoNetwork":
+                net = cls(grid=g, adjacency=np.array(A2),
+                          directed=bool(directed),
+                          node_weight_type="surface", silence_level=3)
+            else:
+                net = cls(resistances=np.array(pA(R, p)), grid=g,
+                          adjacency=np.array(A2), node_weight_type="surface",
+                          silence_level=3)
+        net.set_link_attribute(mt.LA, np.array(W2, dtype=float))
+        return net
+    owners = {"SpatialNetwork": ("SpatialNetwork",),
+              "GeoNetwork": ("GeoNetwork", "SpatialNetwork"),
+              "ResNetwork": ("ResNetwork",)}[clsname]
+    return _explore_object(clsname, build, ("rebuild",), n, directed, A,
+                           perms, owners, pairs[:2], skip=skip)
+
+
 FAMILIES = {"net": fam_net, "groups": fam_groups, "spatial": fam_spatial,
-            "recnet": fam_recnet, "visgraph": fam_visgraph}
+            "recnet": fam_recnet, "visgraph": fam_visgraph,
+            "scale": fam_scale}
 
 
 # ---------------------------------------------------------------------------
@@ -832,6 +1027,29 @@ def run(ctx):
                 cases.append((s, ps))
     ctx.explore("visgraph", cases, desc="VisibilityGraph: generic measures "
                 "on the permuted adjacency")
+    # -- scale: fixed larger structured inputs
+    mid = mt.SCALE_MID + (mt.SCALE_MID_THOROUGH if thorough else [])
+    big = mt.SCALE_BIG + (mt.SCALE_BIG_THOROUGH if thorough else [])
+    cases = [("net", nm, 0, 1) for nm in mid]
+    cases += [("net", nm, c, 4) for nm in big for c in range(4)]
+    cases += [("groups", nm, 0, 1) for nm in mid
+              if not mt.scale_graph(nm)[2] and mt.scale_graph(nm)[0] >= 16]
+    for kind in ("SpatialNetwork", "SpatialNetwork-big", "GeoNetwork",
+                 "ResNetwork"):
+        cases.append((kind, "T12+C9ch+2K1", 0, 1))
+        cases.append((kind, "grid3x11", 0, 1))
+        if kind != "ResNetwork":
+            cases += [(kind, nm, c, 2) for nm in big for c in range(2)]
+    cases += [("recnet", str(k), c, 4)
+              for k in ((150, 300) if thorough else (150,))
+              for c in range(4)]
+    ctx.explore("scale", cases, chunk=1, desc="fixed larger structured "
+                "inputs: components of 9/12/15/23 nodes with interleaved "
+                "labels and isolated nodes, connected bipartite N>=21, hub "
+                "rings N=150/209(/300), dense directed N=24, coordinates "
+                "> 1e5, 150(/300) state vectors; a dozen fixed permutations")
+    ctx.notes["scale_inputs"] = {"mid": mid, "big": big,
+                                 "permutations_per_input": 12}
     classes = _all_classes()
     cover, uncl, denied = {}, [], []
     for cn in ("Network", "InteractingNetworks", "SpatialNetwork",
